@@ -14,7 +14,7 @@ LEVEL_TEXT = ('Bounded symbolic verification of the real DefaultHandler on an in
               'increases by exactly one from line to line across files and restarts.')
 LEVEL_NOTE = ('The solver enumerates crash offsets / event counts through realised slices - a finite-domain use of the technique, the '
               'weakest in this design. File-system contract of vf/env/fakefs.py; real-FS effects outside it are not covered.')
-LEVEL_ADDED = 'Also: upper-case peer address, records larger than 4 KiB, several files created within one second, the first KEEPALIVE of a session; thorough tier uses 11 dense boundary crash offsets per line.'
+LEVEL_ADDED = 'Also: upper-case peer address, records larger than 4 KiB, several files created within one second, the first KEEPALIVE of a session; thorough tier uses 11 dense boundary crash offsets per line. Event text that is not valid UTF-8 (surrogateescape) - the fake file encodes text as a real one does.'
 TECHNIQUE = 'symbolic execution of DefaultHandler on a fake file system with symbolic crash offset, restart point and rotation threshold (CrossHair+z3)'
 EXPLANATION = 'C20: restart / crash / rotation audit of the message log.'
 BOUNDS = 'histories of <= 4 events before the restart/crash and <= 2 after; crash offset 0..len(line); rotation threshold 1..400 characters or none'
